@@ -931,6 +931,8 @@ func detectNestedAggregationRecursive(expr string, inAggregation, inAnalytic boo
 
 // Parse aggregation function and return expression information
 func ParseAggregateTypeWithExpression(exprStr string) (aggType aggregator.AggregateType, name string, expression string, allFields []string, err error) {
+	// Redundant parentheses around the whole item, `(sum(v))`, do not change what it is.
+	exprStr = stripEnclosingParens(exprStr)
 	// 首先检测是否存在嵌套聚合函数
 	if err := detectNestedAggregation(exprStr); err != nil {
 		// 如果发现嵌套聚合，返回错误
@@ -1712,6 +1714,18 @@ func containsNestedFunctions(param string) bool {
 	// 简单检查：如果包含函数名模式后跟括号，则认为是嵌套函数
 	pattern := regexp.MustCompile(`[a-zA-Z_][a-zA-Z0-9_]*\s*\(`)
 	return pattern.MatchString(param)
+}
+
+// stripEnclosingParens removes parentheses that enclose the whole expression, repeatedly:
+// "((sum(v)))" -> "sum(v)"; "(a) + (b)" is left alone.
+func stripEnclosingParens(s string) string {
+	for {
+		t := strings.TrimSpace(s)
+		if len(t) < 2 || t[0] != '(' || findMatchingParenInternal(t, 0) != len(t)-1 {
+			return s
+		}
+		s = t[1 : len(t)-1]
+	}
 }
 
 // findMatchingParenInternal 找到匹配的右括号
